@@ -90,6 +90,7 @@ type lockAnalysis struct {
 	ctxs     map[string]bool
 	acquires []acquire
 	blocks   []blockEv
+	cbCalls  []blockEv // calls of a func-typed struct field (a callback supplied from outside)
 }
 
 // context of one walk
@@ -646,6 +647,18 @@ func (c *lctx) call(call *ast.CallExpr, held lockset) {
 		}
 		c.expr(a, held)
 	}
+	// a call of a func-typed struct field: a callback supplied from outside runs with our locks held
+	if fse, ok := ast.Unparen(call.Fun).(*ast.SelectorExpr); ok {
+		if fsel, ok := info.Selections[fse]; ok && fsel.Kind() == types.FieldVal {
+			if _, isFunc := fsel.Obj().Type().Underlying().(*types.Signature); isFunc {
+				if v, ok := fsel.Obj().(*types.Var); ok {
+					if n, ok := c.la.w.fieldName[v]; ok {
+						c.la.cbCalls = append(c.la.cbCalls, blockEv{c.key, n, c.la.w.pos(call.Pos()), held.clone()})
+					}
+				}
+			}
+		}
+	}
 	// the function expression itself
 	switch f := ast.Unparen(call.Fun).(type) {
 	case *ast.SelectorExpr:
@@ -680,7 +693,17 @@ func (c *lctx) call(call *ast.CallExpr, held lockset) {
 	// a call through an interface method: every implementation in the module is a possible callee
 	if fn != nil {
 		if sig, ok := fn.Type().(*types.Signature); ok && sig.Recv() != nil {
-			if it, ok := sig.Recv().Type().Underlying().(*types.Interface); ok {
+			recvT := sig.Recv().Type()
+			// prefer the static type of the receiver expression: a method promoted from an embedded interface
+			// (Interceptor embeds io.Closer) must be implemented by a type of the OUTER interface
+			if fse, ok := ast.Unparen(call.Fun).(*ast.SelectorExpr); ok {
+				if t := info.TypeOf(fse.X); t != nil {
+					if _, isIface := t.Underlying().(*types.Interface); isIface {
+						recvT = t
+					}
+				}
+			}
+			if it, ok := recvT.Underlying().(*types.Interface); ok {
 				for _, impl := range c.la.w.implementations(it, fn.Name()) {
 					c.la.calls = append(c.la.calls, callSite{caller: c.key, callee: impl, held: held.clone(), pos: c.la.w.pos(call.Pos())})
 				}
@@ -803,11 +826,13 @@ func genLockFacts(w *world, dump bool) string {
 				ls = append(ls, a.name)
 			}
 		}
-		for _, b := range la.blocks {
-			for l := range join(entry[b.ctx], b.held) {
-				if !seenL[l] {
-					seenL[l] = true
-					ls = append(ls, l)
+		for _, bl := range [][]blockEv{la.blocks, la.cbCalls} {
+			for _, b := range bl {
+				for l := range join(entry[b.ctx], b.held) {
+					if !seenL[l] {
+						seenL[l] = true
+						ls = append(ls, l)
+					}
 				}
 			}
 		}
@@ -914,7 +939,7 @@ func genLockFacts(w *world, dump bool) string {
 	var bs []string
 	for _, b := range la.blocks {
 		for l := range join(entry[b.ctx], b.held) {
-			k := fmt.Sprintf("(%s, %d, %s)", leanStr(b.ctx), lid(l), leanStr(b.what))
+			k := fmt.Sprintf("(%s, %s, %s)", leanBytes(b.ctx), leanBytes(l), leanStr(b.what))
 			if !seenB[k] {
 				seenB[k] = true
 				bs = append(bs, k)
@@ -925,7 +950,24 @@ func genLockFacts(w *world, dump bool) string {
 		}
 	}
 	sort.Strings(bs)
-	fmt.Fprintf(&sb, "def blockingUnderLock : List (String × Nat × String) := [%s]\n\n", strings.Join(bs, ", "))
+	fmt.Fprintf(&sb, "def blockingUnderLock : List (Name × Name × String) := [%s]\n\n", strings.Join(bs, ", "))
+	// callbacks invoked while a lock is held
+	seenC := map[string]bool{}
+	var cs2 []string
+	for _, b := range la.cbCalls {
+		for l := range join(entry[b.ctx], b.held) {
+			k := fmt.Sprintf("(%s, %s, %d)", leanBytes(b.ctx), leanBytes(b.what), lid(l))
+			if !seenC[k] {
+				seenC[k] = true
+				cs2 = append(cs2, k)
+				if dump {
+					fmt.Println("CALLBACK-UNDER-LOCK", b.ctx, b.what, l, b.pos)
+				}
+			}
+		}
+	}
+	sort.Strings(cs2)
+	fmt.Fprintf(&sb, "def callbackUnderLock : List (Name × Name × Nat) := [%s]\n\n", strings.Join(cs2, ", "))
 	sb.WriteString("end Interceptor.Gen.LockFacts\n")
 	return sb.String()
 }
